@@ -15,6 +15,7 @@ void vf_check(bool, int label) noexcept;  // property assertion with a stable la
 void vf_assume(bool) noexcept;            // stated precondition / bound on symbolic inputs
 uint64_t vf_nondet64() noexcept;          // arbitrary 64-bit value (solver variable)
 uint64_t vf_now_s() noexcept;             // symbolic monotone wall clock, seconds
+uint64_t vf_now_ns() noexcept;            // same clock, nanoseconds
 }
 // Scheduling interface handed to babylon templates that take one (S / M parameter).
 struct VS {
